@@ -19,7 +19,7 @@ RULE = ('cases: (a) single-node scripts - a random node (station told nothing / 
         'destination kind from random stations (and, in 40 % of the trees, from an application on a router), cold, organically warmed and installed caches; observed: the complete ordered trace of '
         'frames on every LAN and deliveries, compared with the model world run on the same script.  non-trivial = at least one frame '
         'or delivery results; distinct by full script.  (c) tree-cert - for random trees with installed caches the hypotheses of the tree theorems '
-        '(internet_okb, tree_tob, tree_fromb: levels / up-ports / parent ports found by BFS in the harness) are evaluated inside Coq on the model world; expected 1.  (d) node-script-route-aware - node scripts run with settings.route_aware on: submissions to destinations that carry a route, and the route of every source shown.  The direct predicate runs its tree scenarios with route_aware off and on, and also submits bursts: 2..4 packets for one remote network handed down in the same instant on cold trees.')
+        '(internet_okb, tree_tob, tree_fromb: levels / up-ports / parent ports found by BFS in the harness) are evaluated inside Coq on the model world; expected 1.  (d) node-script-route-aware - node scripts run with settings.route_aware on: submissions to destinations that carry a route, and the route of every source shown.  The direct predicate runs its tree scenarios with route_aware off and on, submits concurrent histories (2..3 stations at opposite ends of cold lines/trees of 2..4 routers sending in the same instant), and also submits bursts: 2..4 packets for one remote network handed down in the same instant on cold trees.')
 TRUSTED = ['model coq/theories/Net.v written by hand after netservice.py:329-706, 878-1026 and vlan.py:55-131; tie = correspondence',
            'NPDUs are modelled in decoded form; the harness decodes LAN frames with its own decoder (c06_impl.npdu_decode); the NPCI codec is property C08',
            'RouterInfoCache is abstracted to its lookup function (snet, dnet) -> router MAC (coherent states only; property C19)']
@@ -467,14 +467,15 @@ class Topo:
         return '(mkWorld [%s] [%s] [] [])' % (';'.join(nodes), lans)
 
     def describe(self):
-        return {'nets': {str(n): [bytes(m).hex() for m in ms] for n, ms in self.nets.items()},
+        return {'nets': [[n, [bytes(m).hex() for m in ms]] for n, ms in self.nets.items()],     # ordered: creation order matters
                 'routers': [[[n, bytes(m).hex()] for n, m in ports] for ports in self.routers],
                 'modes': {'%d:%s' % (n, bytes(m).hex()): v for (n, m), v in self.modes.items()}, 'cyclic': self.cyclic,
                 'apps': list(self.apps)}
 
     @staticmethod
     def from_desc(d):
-        nets = collections.OrderedDict((int(n), [bytes.fromhex(m) for m in ms]) for n, ms in d['nets'].items())
+        items = d['nets'].items() if isinstance(d['nets'], dict) else d['nets']
+        nets = collections.OrderedDict((int(n), [bytes.fromhex(m) for m in ms]) for n, ms in items)
         routers = [[(n, bytes.fromhex(m)) for n, m in ports] for ports in d['routers']]
         modes = {(int(k.split(':')[0]), bytes.fromhex(k.split(':')[1])): v for k, v in d['modes'].items()}
         return Topo(nets, routers, modes, d.get('cyclic', False), d.get('apps', ()))
@@ -972,6 +973,86 @@ def rnd_burst(rng, topo, src, tag):
     return out
 
 
+def check_concurrent(topo, sends, limit=WATCHDOG):
+    """a cold internetwork; several stations (typically at opposite ends of a multi-hop path) each hand one packet to
+    their network layer in the same instant, before anything is delivered - so their path discoveries run
+    concurrently and cross each other - then the internetwork runs: every payload must reach exactly its addressees,
+    exactly once, showing its originator.  sends = [(src, kind, dest, recipients, payload)]"""
+    net = build(topo)
+    base = {'topology': topo.describe(),
+            'concurrent': [[[s[0], s[1].hex()], k, _jsonable(d), p.hex()] for s, k, d, _, p in sends]}
+    try:
+        for src, kind, dest, rec, payload in sends:
+            net.stations[src].send(dest, payload)
+        remaining = I.drain_upto(limit)
+    except Exception as x:
+        I.reset_tasks()
+        return dict(base, kind='concurrent-exception', exc=repr(x)[:200])
+    if remaining:
+        I.reset_tasks()
+        return dict(base, kind='concurrent-no-termination')
+    ups = [l for l in net.log if l[0] == 'up']
+    known = {}
+    for src, kind, dest, rec, payload in sends:
+        known[b'\x10\x63' + payload] = (src, kind, dest, rec)
+    for apdu, (src, kind, dest, rec) in known.items():
+        got = collections.Counter(l[1] for l in ups if l[4] == apdu)
+        want = collections.Counter(('s', n, m) for (n, m) in rec)
+        if got != want:
+            return dict(base, kind='concurrent-wrong-recipients', payload=apdu[2:].hex(), source=[src[0], src[1].hex()],
+                        dest=_jsonable(dest), got=sorted(map(str, got.elements())), want=sorted(map(str, want.elements())))
+        for l in ups:
+            if l[4] == apdu and I.strip_route(l[2]) != ('rs', src[0], src[1]):
+                return dict(base, kind='concurrent-wrong-source-shown', shown=str(l[2]))
+    if any(l[4] not in known for l in ups):
+        return dict(base, kind='concurrent-stray-delivery')
+    return None
+
+
+def line_topo(rng, k):
+    """k routers in a line, k+1 networks, 1..2 stations each, random network numbers and station modes"""
+    numbers = rng.sample(range(1, 60), k + 1)
+    nets = collections.OrderedDict()
+    modes = {}
+    for n in numbers:
+        nets[n] = [bytes([m]) for m in rng.sample(range(1, 40), rng.randrange(1, 3))]
+        for mac in nets[n]:
+            modes[(n, mac)] = rng.choice(['net', 'net', 'addr', 'none'])
+    routers = []
+    for i in range(k):
+        ports = [(numbers[i], bytes([101 + i])), (numbers[i + 1], bytes([101 + i]))]
+        rng.shuffle(ports)
+        routers.append(ports)
+    return Topo(nets, routers, modes)
+
+
+def rnd_concurrent(rng, topo, tag):
+    """2..3 simultaneous senders; the first two sit on two networks as far apart as possible and send towards each
+    other's network (unicast or remote broadcast), a third one anywhere towards any other network"""
+    dist = topo.dist()
+    nets = list(topo.nets)
+    a, b = max(((x, y) for x in nets for y in nets if x != y), key=lambda xy: (dist[xy[0]][xy[1]], rng.random()))
+    out = []
+
+    def one(snet, dnet, k):
+        src = (snet, rng.choice(topo.nets[snet]))
+        payload = bytes([tag % 256, k, rng.randrange(256)])
+        if rng.random() < 0.3:
+            return (src, 'remote-broadcast', ('rb', dnet), [(dnet, m) for m in topo.nets[dnet]], payload)
+        m = rng.choice(topo.nets[dnet])
+        return (src, 'unicast-remote', ('rs', dnet, m), [(dnet, m)], payload)
+    out.append(one(a, b, 0))
+    out.append(one(b, a, 1))
+    if rng.random() < 0.5:
+        s3 = rng.choice(nets)
+        d3 = rng.choice([n for n in nets if n != s3])
+        third = one(s3, d3, 2)
+        if third[0] not in [o[0] for o in out]:      # one packet per sender in the same instant
+            out.append(third)
+    rng.shuffle(out)
+    return out
+
+
 def check_router_app_origin(topo, ri, dest, payload):
     """the application on router ri sends; every recipient replies to the source it was shown; the replies must
     reach the router application (reply-routability clause with a router-resident originator)"""
@@ -1077,6 +1158,19 @@ def direct(rng, tier, focus=()):
             hist['burst/' + topo.modes.get(src, 'net')] += 1
             nontriv.add(('burst', t, src))
             note(f)
+    # --- concurrent discovery: stations at opposite ends of a multi-hop path start at the same instant, cold
+    for t in range(_n(600 if big else 90)):
+        if t % 3 != 2:
+            topo = line_topo(rng, 2 + t % 3 + (t // 3) % 2)          # lines of 2..4 routers
+        else:
+            topo = rnd_tree(rng, 6)
+            if len(topo.routers) < 2:
+                topo = line_topo(rng, 2)
+        f = check_concurrent(topo, rnd_concurrent(rng, topo, t))
+        n_eval += 1
+        hist['concurrent/' + ('line' if t % 3 != 2 else 'tree')] += 1
+        nontriv.add(('concurrent', t))
+        note(f)
     # --- an application that lives on a router
     for t in range(_n(40 if big else 10)):
         topo = rnd_tree(rng, 5, apps=True)
@@ -1177,7 +1271,7 @@ def _replay(f):
     elif 'reply_to' in f:
         # a failing reply: replay the request it answers, the reply is sent again as part of it
         _replay(f['reply_to'])
-    elif 'topology' in f and 'source' in f:
+    elif 'topology' in f and 'source' in f and 'concurrent' not in f and 'burst' not in f:
         topo = Topo.from_desc(f['topology'])
         net = build(topo)
         src = (f['source'][0], bytes.fromhex(f['source'][1]))
@@ -1189,6 +1283,14 @@ def _replay(f):
     elif 'topology' in f and 'events' in f:
         topo = Topo.from_desc(f['topology'])
         print('implementation:', impl_world(topo, [_unjson(e) for e in f['events']])[0][:400])
+    elif 'concurrent' in f and 'topology' in f:
+        topo = Topo.from_desc(f['topology'])
+        sends = []
+        for src, k, d, p in f['concurrent']:
+            d = _unjson(d)
+            rec = [(d[1], m) for m in topo.nets[d[1]]] if d[0] == 'rb' else [(d[1], d[2])]
+            sends.append(((src[0], bytes.fromhex(src[1])), k, d, rec, bytes.fromhex(p)))
+        print('implementation:', check_concurrent(topo, sends))
     elif 'burst' in f and 'topology' in f:
         topo = Topo.from_desc(f['topology'])
         src = (f['source'][0], bytes.fromhex(f['source'][1]))
